@@ -49,7 +49,7 @@ def action_text_task(task):
     singles = [(c,) for c in cards]
     pairs = [(cards[i], cards[(i * 7 + 3) % len(cards)]) for i in range(len(cards))] + [(cards[0], cards[1], cards[2])]
     amounts = [0, 1, 2, 7, 10, 99, 100, 12345, 10 ** 12, Decimal('0.5'), Decimal('2.25'), Decimal('1000000.01')]
-    comments = [None, 'a remark', 'with # hash']
+    comments = [None, 'a remark', 'with # hash', 'two  blanks and   three', 'a\ttab', 'quote " and \' apostrophe', 'p1 cc looks like an action']
     bad = {}
     n = 0
 
